@@ -2,7 +2,9 @@ package props
 
 import (
 	"fmt"
+	"github.com/gdamore/tcell/v2/terminfo/dynamic"
 	"os"
+	"os/exec"
 	"sort"
 	"strings"
 
@@ -39,6 +41,7 @@ type c17sess struct {
 	dec   vt.Decoder
 	entry string
 	ti    *terminfo.Terminfo // a description supplied by the caller instead of a built-in entry
+	acsc  string             // the acsc string the reference terminal goes by, when it is not ti.AltChars
 }
 
 // encodable reports whether the charset can represent r, and what the
@@ -91,6 +94,12 @@ func C17(r *core.Run) {
 		sessions = append(sessions, c17sess{cs: "US-ASCII", lc: "C", dec: asciiDecoder, entry: "pc-console-no-smacs", ti: pc})
 		// (only with the C locale: the glyph bytes are codes >= 0x80 of that terminal's single
 		// character set, which cannot at the same time be ISO 8859-x)
+	}
+	// a description that is not compiled in, loaded through infocmp (terminfo/dynamic): the PC
+	// console entry cons25 where the machine has it. The reference terminal goes by the harness's
+	// own reading of the infocmp output, not by what the loader made of it.
+	if dyn, ok := c17dynamic(r); ok {
+		sessions = append(sessions, dyn)
 	}
 	// rune set
 	var runes []rune
@@ -201,10 +210,14 @@ func c17session(r *core.Run, se c17sess, runes []rune) {
 	const perRow = W / 2
 	term := vt.New(W, H)
 	term.FFClears = strings.HasPrefix(ti.Name, "sun")
-	term.Acs = vt.BuildAcs(ti.AltChars)
+	refAcsc := ti.AltChars
+	if se.acsc != "" {
+		refAcsc = se.acsc
+	}
+	term.Acs = vt.BuildAcs(refAcsc)
 	term.AcsAlways = ti.AltChars != "" && ti.EnterAcs == ""
 	term.Dec = se.dec
-	glyphs := vt.AcsGlyphRunes(ti.AltChars)
+	glyphs := vt.AcsGlyphRunes(refAcsc)
 	tic := CopyTI(ti)
 	tic.PadChar = ""
 	ft := faketty.New(W, H)
@@ -298,6 +311,11 @@ func c17session(r *core.Run, se c17sess, runes []rune) {
 			fail(cat, fmt.Sprintf("%s: expected %s (representable=%v acs=%v fallback=%q), terminal shows %s wide=%v%s", when, stage, enc, hasAcs, fb, got, c0.Wide, nxt), rn)
 			return false
 		}
+		// a one-column cell leaves the column to its right alone (the sweep uses every other column)
+		if w == 1 && c1 != nil && (c1.R != ' ' || c1.Cont) {
+			fail("spill", fmt.Sprintf("%s: the cell (combining %U) also wrote %q into the column to its right", when, comb, c1.R), rn)
+			return false
+		}
 		// combining runes: shown iff representable (and the base was shown as itself)
 		if len(comb) > 0 {
 			var want []rune
@@ -336,6 +354,24 @@ func c17session(r *core.Run, se c17sess, runes []rune) {
 		}
 		return true
 	}
+	// combining content: U+0301 on every fifth cell; on another fifth (legacy charsets) a mark the
+	// charset cannot represent and to which width tables give a column of its own (Hebrew point,
+	// Thai vowel, variation selector, keycap, emoji modifier): it is elided like any other
+	var wideMarks []rune
+	for _, c := range []rune{0x05b4, 0x0e31, 0xfe0f, 0x20e3, 0x1f3fb, 0x093e} {
+		if _, enc := se.encodable(c); !enc && !utf8 {
+			wideMarks = append(wideMarks, c)
+		}
+	}
+	combFor := func(i int) []rune {
+		switch {
+		case i%5 == 4:
+			return []rune{0x301}
+		case i%5 == 3 && len(wideMarks) > 0:
+			return []rune{wideMarks[i%len(wideMarks)]}
+		}
+		return nil
+	}
 	s.Show()
 	// the very first registration change on this screen is the removal of a standard fallback
 	{
@@ -372,11 +408,7 @@ func c17session(r *core.Run, se c17sess, runes []rune) {
 		s.Clear()
 		for i, rn := range batch {
 			x, y := (i%perRow)*2, i/perRow
-			var comb []rune
-			if i%5 == 4 {
-				comb = []rune{0x301}
-			}
-			s.SetContent(x, y, rn, comb, tcell.StyleDefault)
+			s.SetContent(x, y, rn, combFor(i), tcell.StyleDefault)
 		}
 		if base%(3*perRow*H) == 0 {
 			s.Sync()
@@ -388,12 +420,8 @@ func c17session(r *core.Run, se c17sess, runes []rune) {
 		}
 		for i, rn := range batch {
 			x, y := (i%perRow)*2, i/perRow
-			var comb []rune
-			if i%5 == 4 {
-				comb = []rune{0x301}
-			}
 			n++
-			if !checkCell(rn, comb, x, y, "draw") {
+			if !checkCell(rn, combFor(i), x, y, "draw") {
 				break
 			}
 		}
@@ -526,4 +554,76 @@ func acsKind(ti *terminfo.Terminfo) string {
 		return "acs-so"
 	}
 	return "acs-scs"
+}
+
+func isOct(b byte) bool { return b >= '0' && b <= '7' }
+
+// c17dynamic loads cons25 through tcell's dynamic loader and, independently, reads its acsc
+// capability from the infocmp output. Glyphs that are control bytes (arrows on the PC console)
+// are left out on both sides: the reference terminal has no PC font for them.
+func c17dynamic(r *core.Run) (c17sess, bool) {
+	out, err := exec.Command("infocmp", "-1", "cons25").Output()
+	if err != nil {
+		r.Count("dynamic_description_unavailable", 1)
+		return c17sess{}, false
+	}
+	raw := ""
+	for _, line := range strings.Split(string(out), "\n") {
+		line = strings.TrimSpace(line)
+		if strings.HasPrefix(line, "acsc=") {
+			raw = strings.TrimSuffix(strings.TrimPrefix(line, "acsc="), ",")
+		}
+	}
+	// terminfo(5) escapes: \ooo octal, \E, ^X, \\ \, \: \^ \0
+	var acsc []byte
+	for i := 0; i < len(raw); i++ {
+		c := raw[i]
+		switch {
+		case c == '\\' && i+3 < len(raw) && isOct(raw[i+1]) && isOct(raw[i+2]) && isOct(raw[i+3]):
+			acsc = append(acsc, (raw[i+1]-'0')<<6|(raw[i+2]-'0')<<3|(raw[i+3]-'0'))
+			i += 3
+		case c == '\\' && i+1 < len(raw):
+			i++
+			switch raw[i] {
+			case 'E', 'e':
+				acsc = append(acsc, 0x1b)
+			case 'n':
+				acsc = append(acsc, '\n')
+			case 'r':
+				acsc = append(acsc, '\r')
+			case 't':
+				acsc = append(acsc, '\t')
+			case 's':
+				acsc = append(acsc, ' ')
+			case '0':
+				acsc = append(acsc, 0x80)
+			default:
+				acsc = append(acsc, raw[i])
+			}
+		case c == '^' && i+1 < len(raw):
+			i++
+			acsc = append(acsc, raw[i]&0x1f)
+		default:
+			acsc = append(acsc, c)
+		}
+	}
+	clean := func(a string) string {
+		var b []byte
+		for i := 0; i+1 < len(a); i += 2 {
+			if a[i+1] >= 0x20 && a[i+1] != 0x7f {
+				b = append(b, a[i], a[i+1])
+			}
+		}
+		return string(b)
+	}
+	ti, _, err := dynamic.LoadTerminfo("cons25")
+	if err != nil || ti == nil {
+		r.Count("dynamic_description_unavailable", 1)
+		return c17sess{}, false
+	}
+	ti = CopyTI(ti)
+	ti.AltChars = clean(ti.AltChars)
+	ti.Name, ti.Aliases = "cons25-via-infocmp", nil
+	r.Count("dynamic_description_sessions", 1)
+	return c17sess{cs: "US-ASCII", lc: "C", dec: asciiDecoder, entry: "cons25-via-infocmp", ti: ti, acsc: clean(string(acsc))}, true
 }
